@@ -60,8 +60,8 @@ def parse_harness_output(out):
         r['symex_s'] = float(m.group(1))
     r['solver_s'] = round(sum(float(x) for x in re.findall(r'Runtime Solver: ([\d.]+)s', out)), 2)
     # per-check blocks
-    for blk in re.finditer(r'Check \d+: (\S+)\n\s+- Status: (\w+)\n\s+- Description: "((?:[^"\\]|\\.)*)"', out):
-        name, status, desc = blk.group(1), blk.group(2), blk.group(3)
+    for blk in re.finditer(r'Check \d+: (.*)\n\s+- Status: (\w+)\n\s+- Description: (.*)\n', out):
+        name, status, desc = blk.group(1), blk.group(2), blk.group(3).strip().strip('"')
         if re.match(r'^c\d\d[.:]|^s\d\d|^c\d\d\.cov', desc) or re.match(r'^[cs]_?\w*\d\d', desc):
             if '.cov' in desc.split(':')[0]:
                 r['covers'][desc] = status
@@ -140,7 +140,7 @@ def run_many(crate_dir, harnesses, timeout, jobs=6, mem_gb=14, extra=None):
 def playback_values(crate_dir, slot, harness, timeout):
     """re-run a failing harness with concrete playback and return
     [ {'kind': 'fail'|'cover', 'vals': [[bytes...]...]} ... ] in the order Kani printed them"""
-    r = run_harness(crate_dir, slot, harness, timeout, extra=['-Z', 'concrete-playback', '--concrete-playback=print'])
+    r = run_harness(crate_dir, slot, harness, timeout, mem_gb=40, extra=['-Z', 'concrete-playback', '--concrete-playback=print'])
     out = open(r['log'], 'rb').read().decode('utf-8', 'replace')
     tests = []
     for m in re.finditer(r'fn (kani_concrete_playback_\w+)\(\) \{(.*?)\n\}', out, re.S):
